@@ -286,7 +286,7 @@ func init() {
 		"vsenc": func(w []string, st *Stats) (string, string) {
 			v := y.ValueStruct{Meta: atob(w[1]), UserMeta: atob(w[2]), ExpiresAt: atou(w[3]), Value: unhx(w[4])}
 			sz := v.EncodedSize()
-			b := make([]byte, sz)
+			b := make([]byte, sz+16) // slack: a wrong EncodedSize must show as [vs-size], not as a panic
 			n := v.Encode(b)
 			orc := ""
 			if n != sz {
@@ -314,8 +314,8 @@ func init() {
 
 func genVsCase(rng *rand.Rand, st *Stats) []string {
 	v := y.ValueStruct{Meta: byte(rng.Intn(256)), UserMeta: byte(rng.Intn(256)), ExpiresAt: genU64(rng), Value: randBytes(rng, rng.Intn(20))}
-	b := make([]byte, v.EncodedSize())
-	v.Encode(b)
+	b := make([]byte, v.EncodedSize()+16)
+	b = b[:v.Encode(b)]
 	ops := []string{
 		fmt.Sprintf("vsenc %d %d %d %s", v.Meta, v.UserMeta, v.ExpiresAt, hx(v.Value)),
 		"vsdec " + hx(b),
@@ -480,7 +480,12 @@ func init() {
 					orc = fmt.Sprintf("[entry-saferead] safeRead.Entry(encodeEntry(e)++rest) = %s hlen=%d (%v)", entStr(s), s.Hlen, serr)
 				}
 				// corruption (C16): any single-byte change in meta bytes, key, value or crc is rejected
-				hl := s.Hlen
+				// header length from the documented layout, not from the (possibly broken) reader:
+				// altering a length varint is a different experiment (it can announce gigabytes)
+				hl := 2 + uvLen(uint64(len(e.Key))) + uvLen(uint64(len(e.Value))) + uvLen(e.ExpiresAt)
+				if hl+len(e.Key)+len(e.Value)+4 != len(enc) {
+					return hx(enc), fmt.Sprintf("[entry-len] record has %d bytes, layout header|key|value|crc32 needs %d", len(enc), hl+len(e.Key)+len(e.Value)+4)
+				}
 				pos := []int{0, 1, len(enc) - 1, len(enc) - 4}
 				for i := hl; i < len(enc)-4; i++ {
 					pos = append(pos, i)
